@@ -90,6 +90,9 @@ def mk_H(case):
         c1, o1 = mk_terms(terms[:k])
         c2, o2 = mk_terms(terms[k:])
         return qp.dot(c1, o1) + qp.dot(c2, o2)
+    if b == "ctor":
+        cs, ops = mk_terms(terms)
+        return qp.pulse.ParametrizedHamiltonian(cs, ops)
     if b == "scaled":                     # s * H'  where the spec's fixed values / callables are those of H'
         cs, ops = mk_terms(terms)
         return case["scale"] * qp.pulse.ParametrizedHamiltonian(cs, ops)
@@ -184,11 +187,9 @@ def run_device(case):
 
     @qp.qnode(dev, interface="jax")
     def circ(ps):
-        for g in prep_ops(case["prep"]):
-            qp.apply(g)
+        prep_ops(case["prep"])          # operators are queued on creation
         qp.evolve(H, **kw)(ps, tt(case), return_intermediate=ri, complementary=comp)
-        for g in prep_ops(case.get("post", [])):
-            qp.apply(g)
+        prep_ops(case.get("post", []))
         return qp.state()
     f = jax.jit(circ) if case.get("jit") else circ
     st = f(params)
@@ -216,8 +217,7 @@ def run_grad(case):
 
     @qp.qnode(dev, interface="jax")
     def circ(ps):
-        for o in ops_for(ps):
-            qp.apply(o)
+        ops_for(ps)                     # operators are queued on creation
         return qp.expval(ob)
     which = case.get("which", ["backprop", "odegen", "stoch"])
     res["value"] = float(circ(params))
